@@ -56,6 +56,35 @@ func main() {
 			os.Exit(1)
 		}
 		os.Exit(0)
+	case "wire-schema": // prints the table TBL-wire freezes (development aid)
+		w, err := Load("/repo", "quick", "", nil)
+		if err != nil {
+			fmt.Println(err)
+			os.Exit(2)
+		}
+		sites := wireSites(w)
+		var keys []string
+		for k := range sites {
+			keys = append(keys, k)
+		}
+		sort.Strings(keys)
+		for _, k := range keys {
+			fmt.Printf("\t%q: %q,\n", k, sites[k])
+		}
+		os.Exit(0)
+	case "refactorings":
+		if len(os.Args) < 3 {
+			usage()
+		}
+		res := runRefactorings(os.Args[2], "/repo", defaultVerif())
+		for _, d := range res["details"].([]map[string]any) {
+			fmt.Printf("%-11s %-10s %v %v\n", d["outcome"], d["refactoring"], d["reports"], d["note"])
+		}
+		fmt.Printf("refactorings %s: quiet %v / %v (reported %v, skipped %v)\n", os.Args[2], res["refactorings_quiet"], res["refactorings_total"], res["refactorings_reported"], res["refactorings_skipped"])
+		if m, _ := res["refactorings_reported"].(int); m > 0 {
+			os.Exit(1)
+		}
+		os.Exit(0)
 	case "selftest":
 		os.Exit(cmdSelftest(os.Args[2:]))
 	case "list":
@@ -149,6 +178,7 @@ func cmdCheck(args []string) int {
 			if !*noSelf && len(ov) == 0 {
 				opts.selftest = runSelftests(id, *repo, *verif)
 				opts.selftest["seeded_changes"] = runSeeded(id, *repo, *verif)
+				opts.selftest["refactorings"] = runRefactorings(id, *repo, *verif)
 			}
 		}
 		return r.Finish(opts)
